@@ -245,6 +245,47 @@ def _random_trees(seed, count):
 POS = {1: [[0], [3], [-5], [8]], 2: [[0, 0], [3, -1], [-5, 2], [8, 8]], 3: [[0, 0, 0], [3, -1, 2], [-5, 2, 7], [1, 8, -4]]}
 
 
+def merge_located(out):
+    """droplets as the image analysis returns them (unrefined and refined, spherical / diffuse / perturbed) can be merged
+    like hand-made ones: volumes add, the centre is the volume-weighted mean, in place = out of place"""
+    import warnings
+
+    from pde import CartesianGrid, UnitGrid
+
+    from droplets import DiffuseDroplet, Emulsion, locate_droplets
+
+    cases = [(UnitGrid([32, 32]), [([10.0, 10.0], 4.0), ([22.0, 21.0], 5.0)], {}),
+             (UnitGrid([32, 32]), [([10.0, 10.0], 4.0), ([22.0, 21.0], 5.0)], {"refine": True}),
+             (CartesianGrid([[0, 16]] * 3, 16, periodic=[True, False, False]), [([5.0, 5.0, 5.0], 3.0), ([11.0, 10.0, 10.5], 3.5)], {"refine": True}),
+             (UnitGrid([48]), [([12.0], 5.0), ([33.0], 6.0)], {"refine": True, "interface_width": 1.0})]     # (perturbed results are not merged here: merging treats droplets as spheres, C11 is about spherical / diffuse ones)
+    for grid, drops, kw in cases:
+        fails = []
+        try:
+            with warnings.catch_warnings():
+                warnings.simplefilter("ignore")
+                field = Emulsion([DiffuseDroplet(np.array(p), r, 1.0) for p, r in drops]).get_phasefield(grid)
+                em = locate_droplets(field, **kw)
+                if len(em) != 2:
+                    raise core.MachineryError("scenario: two droplets expected")
+                a, b = em[0], em[1]
+                v, m = a.volume + b.volume, a.volume * np.asarray(a.position) + b.volume * np.asarray(b.position)
+                o = a.merge(b)
+                a2 = a.copy()
+                a2.merge(b, inplace=True)
+            if abs(o.volume - v) > 1e-12 * v or np.max(np.abs(np.asarray(o.position) - m / v)) > 1e-12 * grid.volume ** (1 / grid.dim):
+                fails.append("merged located droplets do not conserve volume / centre of mass")
+            if o.data.tobytes() != a2.data.tobytes():
+                fails.append("in-place merge of located droplets differs from the out-of-place merge")
+        except core.MachineryError:
+            raise
+        except Exception as exc:  # noqa: BLE001
+            fails.append(f"merging droplets returned by locate_droplets({kw}) raised {type(exc).__name__}: {exc}")
+        out.evaluations += 1
+        if fails:
+            out.violation({"merge_located": {"grid": repr(grid), "options": {k: str(v) for k, v in kw.items()}}, "fails": fails})
+    out.parts["merge_located"] = {"cases": len(cases)}
+
+
 def run(out: core.Outcome) -> None:
     import multiprocessing as mp
 
@@ -296,6 +337,7 @@ def run(out: core.Outcome) -> None:
         for b in bad:
             out.violation(b)
     out.extra["random_real_valued_merge_trees"] = per * core.NCPU
+    merge_located(out)
     out.explanation = out.rule
     out.assumptions = [
         "lattice radii/positions (integers) so that the spec's power sums are exact; real-valued inputs only sampled",
